@@ -381,6 +381,8 @@ class Body:
         self.ret = ret            # raw type
         self.crate = crate
         self.index = index        # position in the dump (source order)
+        self.trait = "?"          # trait of the impl block ('?' unknown, None inherent) -- set by expanded.assign_traits
+        self.impl_self = None
         self.nparams = [norm_ty(t) for _, t in params]
         self.nret = norm_ty(ret)
         self.blocks = {}
